@@ -271,12 +271,28 @@ def _rebound_in_clone(repo, ci):
             m = repo.lookup_method(ci, n.func.attr)
             if m is not None:
                 cond = bool(U.guards(n))
+                state_dep = {}
                 for t, st in U.stores(m.node):
                     if isinstance(t, ast.Attribute) and \
                             src(t.value) == 'self' and isinstance(
                                 st, ast.Assign):
+                        # a store that happens only if the attribute is
+                        # missing / empty on the object does not happen on a
+                        # copy: it does not give the copy a fresh object
+                        g_ = [(tst, pol) for tst, pol in U.guards(st)
+                              if _mentions_attr(tst, t.attr)]
+                        if g_:
+                            state_dep.setdefault(t.attr, set()).add(
+                                (id(g_[0][0]), bool(g_[0][1])))
+                            continue
                         # tuple targets: self.a, self.b, self.c = f(...)
                         called.setdefault(t.attr, (n, cond))
+                for a_, pols in state_dep.items():
+                    tests = {}
+                    for tid, pol in pols:
+                        tests.setdefault(tid, set()).add(pol)
+                    if any(v == {True, False} for v in tests.values()):
+                        called.setdefault(a_, (n, cond))
                 for st in walk_no_nested(m.node):
                     if isinstance(st, ast.Assign):
                         for tg in st.targets:
@@ -286,6 +302,18 @@ def _rebound_in_clone(repo, ci):
                                             src(e.value) == 'self':
                                         called.setdefault(e.attr, (n, cond))
     return cl, reb, called
+
+
+def _mentions_attr(test, attr):
+    for x in ast.walk(test):
+        if isinstance(x, ast.Attribute) and x.attr == attr and \
+                src(x.value) == 'self':
+            return True
+        if isinstance(x, ast.Call) and call_name(x) in (
+                'hasattr', 'getattr') and len(x.args) >= 2 and \
+                src(x.args[0]) == 'self' and const(x.args[1]) == attr:
+            return True
+    return False
 
 
 def _is_fresh(v):
